@@ -239,16 +239,25 @@ def run(ctx):
             jobs.append(('bytes-%s#%d' % (target, k), fl, b'x: x\n'))
     # reference graphs from Parse.tla: file f refers to the files in g[f] through loop steps
     gjobs = []
-    gsel = graphs if not ctx.quick else rng.sample(graphs, min(len(graphs), 40))
-    for g, okv, nreach in gsel:
+    # quick: every graph whose discovery must succeed (they are few, and they are the ones in which a wrongly
+    # resolved path shows) plus a sample of the others
+    valid = [x for x in graphs if x[1]]
+    rest = [x for x in graphs if not x[1]]
+    gsel = graphs if not ctx.quick else valid + rng.sample(rest, min(len(rest), 30))
+    # where each referenced file lives: the specification fixes only that every reference, whichever file contains it,
+    # is relative to the context directory.  Layouts: all nested files in sub/, all in the root, or mixed.
+    layouts = [lambda f: 'sub/%s.yaml' % f, lambda f: '%s.yaml' % f, lambda f: ('sub/%s.yaml' if f < 'b' else 'deep/er/%s.yaml') % f]
+    gsel = [(g, okv, nreach, layouts[(k if ctx.quick else kk) % len(layouts)]) for k, (g, okv, nreach) in enumerate(gsel)
+            for kk in ([0] if ctx.quick else range(len(layouts)))]
+    for g, okv, nreach, loc in gsel:
         fl = {}
         for f, refs in g.items():
             w = base_sub() if f != 'main' else {'version': 'v0.2.0', 'input': base_sub()['input'], 'steps': {}, 'outputs': {'success': {'x': Raw('!expr $.input.id')}}}
             if f != 'main':
                 w = copy.deepcopy(w)
             for k, tgt in enumerate(refs):
-                w['steps']['l%d' % k] = {'kind': 'foreach', 'workflow': ('sub/%s.yaml' % tgt) if tgt != 'main' else 'workflow.yaml', 'items': [{'id': 'i'}]}
-            fl['workflow.yaml' if f == 'main' else 'sub/%s.yaml' % f] = doc(w)
+                w['steps']['l%d' % k] = {'kind': 'foreach', 'workflow': loc(tgt) if tgt != 'main' else 'workflow.yaml', 'items': [{'id': 'i'}]}
+            fl['workflow.yaml' if f == 'main' else loc(f)] = doc(w)
         gjobs.append((g, okv, fl))
     with cf.ThreadPoolExecutor(max_workers=max(2, vlib.NCPU - 2)) as ex:
         res1 = list(ex.map(lambda a: run_parse(binary, ctx.work, 'c%05d' % a[0], a[1][1], input_bytes=a[1][2]), enumerate(jobs)))
